@@ -72,6 +72,13 @@ impl Ctx {
             budget: Duration::from_secs(budget_s),
         }
     }
+    /// per-check exploration budget (seconds); VERIF_BUDGET_S still overrides
+    pub fn with_budget(mut self, quick_s: u64, thorough_s: u64) -> Ctx {
+        if std::env::var("VERIF_BUDGET_S").is_err() {
+            self.budget = Duration::from_secs(if self.tier.is_thorough() { thorough_s } else { quick_s });
+        }
+        self
+    }
     pub fn out_of_time(&self) -> bool {
         self.start.elapsed() > self.budget
     }
